@@ -34,15 +34,20 @@ GEN = {
 def mc_family(family, tier, wd):
     if family == 'race':
         # two clients at once: the lock discipline of the handlers (IggyCatalogueMT); the as-found one must be refuted
-        consts = dict(Topics='{1,2}' if tier == 'quick' else '{1,2,3}', PurgeExclusive='TRUE')
+        consts = dict(Topics='{1,2}' if tier == 'quick' else '{1,2,3}', PurgeExclusive='TRUE', ReleaseEarly='{}')
         cfg = os.path.join(wd, 'MC_race.cfg')
         write_cfg(cfg, 'Spec', consts, invariants=['Replayable', 'SameCatalogue'])
         r = tlc_mc('IggyCatalogueMT', cfg, wd, workers=4, timeout=1200)
         cfg2 = os.path.join(wd, 'MC_race_asfound.cfg')
-        write_cfg(cfg2, 'Spec', dict(Topics='{1}', PurgeExclusive='FALSE'), invariants=['Replayable'])
+        write_cfg(cfg2, 'Spec', dict(Topics='{1}', PurgeExclusive='FALSE', ReleaseEarly='{}'), invariants=['Replayable'])
         r2 = tlc_mc('IggyCatalogueMT', cfg2, wd, workers=1, timeout=300)
         if r2['ok']:
             raise ToolError('the as-found lock discipline (purge under the shared lock) was NOT refuted: the model lost its teeth')
+        cfg3 = os.path.join(wd, 'MC_race_release.cfg')
+        write_cfg(cfg3, 'Spec', dict(Topics='{1}', PurgeExclusive='TRUE', ReleaseEarly='{"delete"}'), invariants=['Replayable', 'SameCatalogue'])
+        r3 = tlc_mc('IggyCatalogueMT', cfg3, wd, workers=1, timeout=300)
+        if r3['ok']:
+            raise ToolError('a delete that releases the lock before it journals was NOT refuted: the model lost its teeth')
         log(f'race: IggyCatalogueMT {r["distinct"]} distinct states; as-found discipline refuted as expected')
         r['consts'] = dict(consts, negative_control='PurgeExclusive=FALSE refuted: ' + ','.join(r2['violated']))
         return r
@@ -139,12 +144,12 @@ def build_scenarios(families, tier, wd, seed):
     for fam in families:
         if fam == 'race':
             # two clients at once, the create's journal entry held back at the guarded schedule point (see cat_lens.rs:run_race)
-            for pair in ('topic', 'stream'):
+            for pair in ('topic', 'stream', 'delete_create_topic', 'delete_create_stream'):
                 for rep in range(2 if tier == 'quick' else 10):
                     n += 1
                     scenarios.append(dict(id=f'race-{pair}-{n}', family='race', cfg=dict(cache='off', transport='tcp'), seed=rnd.randrange(1 << 30),
                                           steps=[dict(op='race', pair=pair)]))
-            stats[fam] = dict(pairs=2)
+            stats[fam] = dict(pairs=4)
             continue
         g = GEN[fam]
         paths, walks = gen_scripts(fam, tier, wd, seed)
